@@ -32,18 +32,18 @@ CHECKS = {
     "C17": gen("c17"),
     "C06": gen("c06"),
     "C15": gen("c15"),
-    "C01": rust("model_checking", [("std", "c01", [])], [("std", "c01", []), ("nostd", "c01", [])]),
-    "C02": rust("model_checking", [("std", "c02", [])], [("std", "c02", []), ("nostd", "c02", [])]),
-    "C04": rust("model_checking", [("std", "c04", [])], [("std", "c04", []), ("nostd", "c04", [])]),
-    "C07": rust("model_checking", [("std", "c07", [])], [("std", "c07", []), ("nostd", "c07", [])]),
+    "C01": rust("model_checking", [("std", "c01", []), ("nostd", "c01", [])], [("std", "c01", []), ("nostd", "c01", [])]),
+    "C02": rust("model_checking", [("std", "c02", []), ("nostd", "c02", [])], [("std", "c02", []), ("nostd", "c02", [])]),
+    "C04": rust("model_checking", [("std", "c04", []), ("nostd", "c04", [])], [("std", "c04", []), ("nostd", "c04", [])]),
+    "C07": rust("model_checking", [("std", "c07", []), ("nostd", "c07", [])], [("std", "c07", []), ("nostd", "c07", [])]),
     "C10": rust("model_checking", [("std", "c10", [])]),
     "C09": rust("model_checking", [("std", "c09", [])]),
-    "C08": rust("model_checking", [("std", "c08", [])], [("std", "c08", []), ("nostd", "c08", [])]),
+    "C08": rust("model_checking", [("std", "c08", []), ("nostd", "c08", [])], [("std", "c08", []), ("nostd", "c08", [])]),
     "C18": rust("model_checking", [("std", "c18", [])]),
     "C12": gen("c12"),
-    "C13": rust("model_checking", [("std", "c13", [])], [("std", "c13", []), ("nostd", "c13", [])]),
+    "C13": rust("model_checking", [("std", "c13", []), ("nostd", "c13", [])], [("std", "c13", []), ("nostd", "c13", [])]),
     "C11": rust("fault_enumeration", [("std", "c11", [])]),
-    "C03": rust("model_checking", [("std", "c03", [])], [("std", "c03", []), ("nostd", "c03", [])]),
+    "C03": rust("model_checking", [("std", "c03", []), ("nostd", "c03", [])], [("std", "c03", []), ("nostd", "c03", [])]),
 }
 
 
